@@ -7,6 +7,10 @@ CLAIMS = {
         text="Every match() of the combinators under contract is proved, for all matcher lists, all inner verdicts and all values, to return None exactly when the declared predicate over the inner verdicts holds, and to modify no object that existed before the call; obligations are generated from the AST of /repo on every run and discharged by z3.",
         note="Inner matchers are abstract objects whose verdict is an uninterpreted function holds(m, x) (pure, deterministic by construction); leaf predicates are uninterpreted relations; VC generator and solvers trusted; see evidence trusted_base for the functions inlined and contracts assumed.",
     ),
+    "C18": dict(
+        text="StreamResultRouter.status is proved, for every rule table, every keyword payload and every route code string (z3 string theory), to deliver exactly one status event to exactly the sink the statement names, with the payload unchanged except for the consumed leading segment; raising exactly when there is no matching rule and no fallback.",
+        note="Sinks are abstract Stream objects (one ghost event per call, no raise); str.split('/')[0] is modelled as the prefix up to the first '/'; VC generator and solvers trusted.",
+    ),
 }
 
 NOT_APPLICABLE = {p: NOT_BUILT for p in ["C%02d" % i for i in range(1, 21)]}
